@@ -187,6 +187,15 @@ def main(ctx):
     for d in (1, 2, 3):
         for i in range(0, min(len(grids), 60 if ctx.quick else 400) - d, 7):
             col_specs.append({"grids": [grids[(i + 11 * j) % len(grids)] for j in range(d)]})
+    # columns whose grids have the same length and nearly the same values (a "same grid" shortcut must not conflate them),
+    # at ordinary and at tiny scale
+    for g in grids[:: max(1, len(grids) // (40 if ctx.quick else 200))]:
+        if len(g) < 2:
+            continue
+        ga = [x for x in g]
+        col_specs.append({"grids": [ga, [x * (1 + 1e-6) + 1e-7 for x in ga]]})
+        col_specs.append({"grids": [[x * 1e-9 for x in ga], [x * 2e-9 for x in ga], [x * 1e-9 + 1e-10 for x in ga]]})
+        col_specs.append({"grids": [ga, ga, [x + (ga[1] - ga[0]) * 0.25 for x in ga]]})
     items = grids + col_specs
     nchunks = 16 if ctx.quick else 64
     cells = [items[i::nchunks] for i in range(nchunks)]
